@@ -244,7 +244,28 @@ def miri_exec_engine(prop, tier, seed):
             if pr.returncode != 0:
                 raise RuntimeError("export-target-grid failed: " + pr.stderr[-300:])
             a64_grid.append(outp)
+    # C12: a deterministic route grid (every role by every route, each used once) for the union code of the AES
+    # autodetect wrapper on each arm the interpreter can reach, and for Kuznyechik's halves
+    route_jobs = []
+    if prop == "C12":
+        gdir = os.path.join(BUILD, "tmp", f"exp-{prop}-routes")
+        os.makedirs(gdir, exist_ok=True)
+        sizes = ["aes128", "aes192", "aes256"]
+        rot = seed % 3
+        plan_r = [(sizes[rot], "aes_auto_z", "x86_64", False), (sizes[(rot + 1) % 3], "aes_auto", "x86_64-ni", True),
+                  (sizes[(rot + 2) % 3], "aes_autoc_z", "aarch64", True), ("kuznyechik", "kuz_compact_z", "i686", False)]
+        if not quick:
+            plan_r += [(s, v, t, g) for s in sizes for (v, t, g) in (("aes_auto_z", "x86_64", False), ("aes_auto_z", "x86_64-ni", True), ("aes_auto_z", "aarch64", True), ("aes_auto", "aarch64", False), ("aes_soft_z", "i686", False))]
+            plan_r += [("kuznyechik", "kuz_z", "aarch64", True), ("kuznyechik", "kuz_z", "x86_64", False)]
+        for k, (fam, var, tgt, grant) in enumerate(plan_r):
+            outp = os.path.join(gdir, f"{prop}-routes-{k}-{fam}.json")
+            pr = subprocess.run([NATIVE, "export-target-grid", "--routes", "--prop", prop, "--seed", str(seed + k), "--family", fam, "--variant", var, "--par", "1", "--out", outp],
+                                capture_output=True, text=True)
+            if pr.returncode != 0:
+                raise RuntimeError("export-target-grid --routes failed: " + pr.stderr[-300:])
+            route_jobs.append((tgt, outp, grant))
     jobs = [(t, f, False) for t in ("x86_64", "i686") for f in files]
+    jobs += route_jobs
     jobs += [("aarch64", f, True) for f in a64_grid]
     jobs += [("aarch64", f, True) for f in a64_aes] + [("aarch64", f, False) for f in a64_aes[: (1 if quick else 8)]]
     jobs += [("aarch64", f, True) for f in a64_kuz]
